@@ -85,6 +85,10 @@ func convCLIOut(c *core.Ctx, stream string, idx int, k theory.Key, chain string,
 			route = "stdout is a socket"
 		case 9:
 			route = "files named like the chain in the working directory"
+		case 1:
+			route = "-o through a symbolic link and .."
+		case 15:
+			route = "-o -"
 		}
 	}
 	var opt runner.Opt
@@ -107,16 +111,44 @@ func convCLIOut(c *core.Ctx, stream string, idx int, k theory.Key, chain string,
 			os.WriteFile(filepath.Join(dir, chain), []byte("rp\n"), 0o644)
 		}
 		opt.Dir = dir
+	case "-o through a symbolic link and ..":
+		// latest -> store/today; "-o latest/../keys.txt" is store/keys.txt (what the operating system opens)
+		root := c.Scratch.Path("c14-links")
+		os.MkdirAll(filepath.Join(root, "store", "today"), 0o755)
+		os.Symlink(filepath.Join("store", "today"), filepath.Join(root, "latest"))
+		outPath = filepath.Join(root, "store", "keys.txt")
+		os.Remove(outPath)
+		os.Remove(filepath.Join(root, "keys.txt"))
+		toFile = true
+		if idx/23%2 == 0 {
+			opt.Dir = root
+			args = append(args, "-o", "latest/../keys.txt")
+		} else {
+			args = append(args, "-o", root+"/latest/../keys.txt")
+		}
+	case "-o -":
+		// the output file is called "-": a name like any other
+		dir := c.Scratch.Path("c14-dash")
+		os.MkdirAll(dir, 0o755)
+		outPath = filepath.Join(dir, "-")
+		os.Remove(outPath)
+		toFile = true
+		opt.Dir = dir
+		args = append(args, []string{"-o", "-"}[0], []string{"-o", "-"}[1])
 	}
 	// the conversion has two inputs, --key and -c: whatever waits on the standard input and whatever the environment
 	// holds is none of its business (every fifth case gets another chain on stdin and CRD_* variables)
 	var r *runner.Result
 	if idx%5 == 2 {
-		r = c.Crd.Run(runner.Opt{Stdin: []byte([]string{"s", "pd\n", "rrr", "x", "d d d\n"}[idx/5%5]), CPUSec: cpu,
-			Env: []string{"CRD_KEY=" + []string{"Eb", "F#m", "H", "C"}[idx/5%4], "CRD_COMMAND=s", "CRD_C=p", "KEY=Gb", "CRD_OUTPUT=/dev/null", "CRD_DEBUG=1"}}, args...)
+		r = c.Crd.Run(runner.Opt{Stdin: []byte([]string{"s", "pd\n", "rrr", "x", "d d d\n"}[idx/5%5]), CPUSec: cpu, Dir: opt.Dir, Redirect: opt.Redirect, StdoutKind: opt.StdoutKind,
+			Env: []string{"CRD_KEY=" + []string{"Eb", "F#m", "H", "C"}[idx/5%4], "CRD_COMMAND=s", "CRD_C=p", "KEY=Gb", "CRD_OUTPUT=/dev/null", "CRD_DEBUG=1", "CRD_FLAGS=" + []string{"--key Eb", "-c s", "-o /dev/null", "--key H"}[idx/5%4], "CRD_ARGS=--key Gb", "CRDFLAGS=-c p"}}, args...)
 	} else if route != "" && (opt.Redirect != "" || opt.StdoutKind != "" || opt.Dir != "") {
 		opt.Stdin, opt.CPUSec = []byte{}, cpu
 		r = c.Crd.Run(opt, args...)
+	} else {
+		r = runCPU(c, cpu, nil, args...)
+	}
+	{
 		if logPath != "" && r.OK() {
 			got := readFileOrNil(logPath)
 			if !bytes.HasPrefix(got, logOld) {
@@ -125,8 +157,6 @@ func convCLIOut(c *core.Ctx, stream string, idx int, k theory.Key, chain string,
 			}
 			r.Stdout = got[len(logOld):]
 		}
-	} else {
-		r = runCPU(c, cpu, nil, args...)
 	}
 	c.Eval(1)
 	if infra(c, r) {
